@@ -1203,6 +1203,14 @@ class CallMixin(object):
                     rs = [Res(r.st, args[2]) if (r.exc is not None and r.exc.cls == 'AttributeError')
                           else r for r in rs]
                 return rs
+        if isinstance(obj.ty, TRef) and name.ty == STR:
+            # dynamic attribute read: an uninterpreted value of (object, name); AttributeError when absent
+            h = ufun('u_dyn_hasattr', z3.IntSort(), S, z3.BoolSort())
+            g = ufun('u_dyn_getattr', z3.IntSort(), S, Val)
+            if len(args) > 2:
+                return self.ok(st, self.ite(h(obj.z, name.z), SV(VAL, g(obj.z, name.z)), self.coerce(args[2], VAL) or args[2]))
+            return self.guard(st, h(obj.z, name.z), 'AttributeError', node,
+                              lambda s2: self.ok(s2, SV(VAL, g(obj.z, name.z))))
         self.oos('getattr with a symbolic name on %r' % (obj.ty,), node)
 
     def bi_type(self, st, args, kw, node):
@@ -1271,7 +1279,21 @@ class CallMixin(object):
     def do_hasattr(self, e, st):
         nm = e.args[1]
         if not (isinstance(nm, ast.Constant) and isinstance(nm.value, str)):
-            self.oos('hasattr with a non-literal name', e)
+            # dynamic attribute name on an object: abstracted by an uninterpreted predicate of (object, name)
+            out = []
+            for r in self.ev(e.args[0], st):
+                if r.exc is not None:
+                    out.append(r)
+                    continue
+                for r2 in self.ev(nm, r.st):
+                    if r2.exc is not None:
+                        out.append(r2)
+                        continue
+                    if not isinstance(r.val.ty, TRef) or r2.val.ty != STR:
+                        self.oos('hasattr with a non-literal name on %r' % (r.val.ty,), e)
+                    f = ufun('u_dyn_hasattr', z3.IntSort(), S, z3.BoolSort())
+                    out += self.ok(r2.st, SV(BOOL, f(r.val.z, r2.val.z)))
+            return out
         attr = nm.value
         out = []
         for r in self.ev(e.args[0], st):
